@@ -261,8 +261,48 @@ THM_RO = "C14_read_only_step / C14_read_only"
 
 
 # ------------------------------------------------------------------ running the implementation
-def run_impl(ops, timeout=600):
-    """execute one history in a fresh interpreter; returns the runner's records"""
+_PRE = {}      # (json of the op list, environment name) -> Future of run_impl: runner processes started ahead of time
+_POOL = [None]
+
+
+def _key(ops, envname):
+    return (json.dumps(ops, sort_keys=True), envname or None)
+
+
+def prefetch_corpus(case):
+    """The framework replays every stored corpus case first in the ordinary environment and then once under every process-global
+    environment of common.ENVS, one `replay` call after the other.  Each is three fresh interpreters; started one case at a time they
+    would dominate the quick tier.  On the first replay of a stored corpus case ALL runner processes of all stored cases under all
+    environments are started at once (bounded pool); `run_impl` then picks its result up.  Purely a scheduling device: the same op
+    lists are executed in the same kind of process, and anything not prefetched is executed on demand."""
+    if _POOL[0] is not None:
+        return
+    cdir = os.path.join(VERIF, "corpus", "C14")
+    stored = []
+    if os.path.isdir(cdir):
+        for f in sorted(os.listdir(cdir)):
+            if f.endswith(".json"):
+                stored.append(json.load(open(os.path.join(cdir, f)))["case"])
+    if not any(c.get("runs") == case["runs"] for c in stored):
+        return
+    from .common import ENVS
+    _POOL[0] = ThreadPoolExecutor(max_workers=max(1, min(8, (os.cpu_count() or 2) // 2)))
+    for envname in [None] + list(ENVS):
+        for c in stored:
+            for ops in c["runs"]:
+                if _key(ops, envname) not in _PRE:
+                    _PRE[_key(ops, envname)] = _POOL[0].submit(_run_impl, ops, envname)
+
+
+def run_impl(ops, envname=None, timeout=600):
+    """execute one history in a fresh interpreter (inside the named process-global environment, if any); returns the runner's records"""
+    f = _PRE.pop(_key(ops, envname), None)
+    if f is not None:
+        return f.result()
+    return _run_impl(ops, envname, timeout)
+
+
+def _run_impl(ops, envname=None, timeout=600):
     wd = tempfile.mkdtemp(prefix="c14_")
     try:
         env = dict(os.environ)
@@ -275,7 +315,7 @@ def run_impl(ops, timeout=600):
         env["MKL_CBWR"] = "AUTO"  # MKL's documented run-to-run reproducibility mode
         env.pop("PYTHONHASHSEED", None)
         p = subprocess.run([sys.executable, "-W", "ignore", "-m", "harness.c14_runner"], cwd=VERIF, env=env,
-                           input=json.dumps({"ops": ops, "workdir": wd}), capture_output=True, text=True, timeout=timeout)
+                           input=json.dumps({"ops": ops, "workdir": wd, "env": envname or None}), capture_output=True, text=True, timeout=timeout)
         for line in p.stdout.splitlines():
             if line.startswith("C14RESULT "):
                 return json.loads(line[len("C14RESULT "):])
@@ -820,12 +860,20 @@ def check_case(ctx, case, impl):
             if op["t"] == "setSeed":
                 ref = torch_stream(op["s"])
                 unchanged = rec["rng_before"]["torch"] == rec["rng_after"]["torch"]
+                # Values torch.manual_seed refuses are not seeds ("all seeds" = what the seeding call can hand to torch): for them only
+                # "nothing is seeded" is judged; WHICH exception class is raised, and whether cpu=False with such a value raises at all
+                # (an early range check would), is counted, not demanded.
                 if not op["cpu"]:
-                    ok = unchanged and rec["out"]["kind"] == "none" and not rec["seeds"]
-                    what = "set_random_seed(cpu=False) neither touches torch's CPU generator nor raises (any seed, gpu on or off)"
+                    if "refused" in ref:
+                        ok = unchanged and not rec["seeds"]
+                        ctx.count("refused value with cpu=False: " + ("raises " + str(rec["out"].get("error")) if rec["out"]["kind"] == "err" else "accepted silently"))
+                    else:
+                        ok = unchanged and rec["out"]["kind"] == "none" and not rec["seeds"]
+                    what = "set_random_seed(cpu=False) neither touches torch's CPU generator nor (for a value torch accepts) raises (gpu on or off)"
                 elif "refused" in ref:
-                    ok = unchanged and rec["out"]["kind"] == "err" and rec["out"].get("error") == ref["refused"]
-                    what = "set_random_seed(s) with a value torch.manual_seed refuses raises the same error and seeds nothing"
+                    ok = unchanged and rec["out"]["kind"] == "err"
+                    ctx.count(f"refused seed raises {rec['out'].get('error')} (torch itself: {ref['refused']})")
+                    what = "set_random_seed(s) with a value torch.manual_seed refuses raises and seeds nothing"
                 else:
                     ok = rec["out"]["kind"] == "none" and rec["rng_after"]["torch"] == ref["state"]
                     what = "after set_random_seed(s) torch's CPU generator is in exactly the state torch.manual_seed(s) produces"
@@ -838,8 +886,13 @@ def check_case(ctx, case, impl):
                 m = model[r]["trace"][i]
                 mo = m["out"]
                 io = rec["out"]
-                ctx.point("result kind", "aux", [io["kind"], io.get("error")], [mo["kind"], mo.get("error")], ccase, exact=True,
-                          sig=f"outkind/{op['t']}")
+                # raised / not raised only: the exception CLASS of the malformed calls (ZeroDivisionError for pos_batch_size=0, …) is not
+                # something the property constrains — an added argument check with another class is harmless; classes are counted
+                # (a value torch refuses handed over with cpu=False is outside the quantifier: raised-or-not is counted by the oracle above)
+                if not (op["t"] == "setSeed" and not op["cpu"] and not seed_ok(op["s"])):
+                    ctx.point("result kind (none / value / raised)", "aux", io["kind"], mo["kind"], ccase, exact=True, sig=f"outkind/{op['t']}")
+                if io["kind"] == "err" and mo["kind"] == "err":
+                    ctx.count(f"error class {op['t']}: " + ("as modelled" if io.get("error") == mo.get("error") else f"{io.get('error')} (model: {mo.get('error')})"))
                 # WHICH torch function produces the elements (bernoulli / rand_like < p / ...) and in which order the calls of one
                 # operation are made is an implementation detail; the frame model is about HOW MUCH of the global stream an
                 # operation consumes: only the element total per operation is compared (the ordered lists stay in the replay detail)
@@ -1015,8 +1068,9 @@ def first_two_run_diff(case, impl):
 def run_cases(ctx, cases):
     jobs = [(ci, r) for ci in range(len(cases)) for r in range(3)]
     workers = max(1, min(8, (os.cpu_count() or 2) // 2))
+    envname = getattr(ctx, "env_name", None)  # the caller's process-global environment is re-created INSIDE the runner processes
     with ThreadPoolExecutor(max_workers=workers) as ex:
-        results = list(ex.map(lambda j: run_impl(cases[j[0]]["runs"][j[1]]), jobs))
+        results = list(ex.map(lambda j: run_impl(cases[j[0]]["runs"][j[1]], envname), jobs))
     for ci, case in enumerate(cases):
         impl = results[3 * ci: 3 * ci + 3]
         # the three processes must have imported the same qucumber source (the tree under test may be edited concurrently)
@@ -1027,7 +1081,7 @@ def run_cases(ctx, cases):
                 raise InternalError("the qucumber source tree keeps changing while the check runs")
             ctx.count("source_changed_during_history_reexecuted")
             ctx.note(f"history {case['name']}: the qucumber source tree changed while its three processes ran; re-executed")
-            impl = [run_impl(ops) for ops in case["runs"]]
+            impl = [run_impl(ops, envname) for ops in case["runs"]]
         d = first_two_run_diff(case, impl)
         if d is not None:
             # Confirmation. Both op lists seed numpy / random explicitly, so a dependence of the library on those sources (or
@@ -1035,7 +1089,7 @@ def run_cases(ctx, cases):
             # A difference that does NOT reproduce is run-to-run nondeterminism of the runtime (torch / BLAS kernels), which the
             # PARTIAL claim excludes; it is recorded in the evidence, not reported as a violation of the library.
             with ThreadPoolExecutor(max_workers=2) as ex:
-                again = list(ex.map(lambda r: run_impl(case["runs"][r]), range(2)))
+                again = list(ex.map(lambda r: run_impl(case["runs"][r], envname), range(2)))
             d2 = first_two_run_diff(case, again + [impl[2]])
             ctx.count("two_run_difference_reexecuted")
             if d2 is None:
@@ -1045,6 +1099,9 @@ def run_cases(ctx, cases):
                          "were executed again in fresh processes: run-to-run nondeterminism of the runtime, outside the claim")
             if {x for im in again for x in im["src"]} == {x for x in impl[2]["src"]}:
                 impl = again + [impl[2]]
+        if impl[0].get("env") and impl[0]["env"][0]:
+            e = impl[0]["env"]
+            ctx.count(f"runner processes inside environment {e[0]}: default dtype {e[1]}, grad enabled {e[2]}, cwd changed {e[3]}")
         if impl[0].get("api") is not None:
             ctx.c14_api = impl[0]["api"]
         done = getattr(ctx, "c14_executed", set())
@@ -1078,5 +1135,6 @@ def search(ctx):
 
 
 def replay(ctx, case):
+    prefetch_corpus(case)
     c = {"name": case.get("name", "replay"), "runs": case["runs"], "b": case["b"], "seed_at": case["seed_at"]}
     run_cases(ctx, [c])
